@@ -184,6 +184,19 @@ claim('C09',
       'DESIGN.md section 4 C09')
 
 
+claim('C12',
+      'Selection.tla states utility, the filled rule, the desperate phase and the greedy choice; TLC proves the '
+      'coverage guarantee for every marker table (up to 3 pairs x 4 genes x {none,up,down}), targets 1 and 2 and '
+      'every tie-break; real selection runs over hand-written reference-marker files are validated step by step '
+      '(filled masks, every chosen gene, the returned list) by Selection_Trace, with relevant pairs derived from '
+      'Taxonomy.tla and the table read from the file; the result is compared across worker counts and '
+      'large-parent thresholds.',
+      'Trusted: TLC, harness writer of the reference-marker format. genes_at_a_time = 1. Selections compared as '
+      'sets per parent.',
+      'TLA+ model checked exhaustively + step-by-step trace validation of the real loop',
+      'DESIGN.md section 4 C12')
+
+
 def build():
     props = [json.loads(l) for l in open(ROOT / 'properties.jsonl')]
     checks = []
@@ -237,7 +250,7 @@ def build():
     return m
 
 
-HOOK_COMMITS = ['1bd1220', '739be0d', '18d954b']
+HOOK_COMMITS = ['1bd1220', '739be0d', '18d954b', '6197617', '224d070']
 
 if __name__ == '__main__':
     m = build()
